@@ -372,12 +372,34 @@ fn hist_configs(tier: Tier) -> Vec<Hist> {
     v
 }
 
+mod threads;
+
 fn main() {
     trv_core::startup();
     let cli = trv_core::parse_cli();
     if cli.property != "C18" {
         eprintln!("p-healthcheck serves C18");
         std::process::exit(2);
+    }
+    if let Some(p) = cli.replay.clone() {
+        let v = trv_core::load_replay(&p);
+        if let Some(ch) = v["history"]["thread_schedule"].as_array() {
+            let choices: Vec<usize> = ch.iter().filter_map(|x| x.as_u64().map(|u| u as usize)).collect();
+            match threads::replay(v["config"].as_str().unwrap_or(""), &choices, v["kind"].as_str().unwrap_or("")) {
+                Some(true) => {
+                    println!("VIOLATION property=C18 replay={p}");
+                    std::process::exit(1);
+                }
+                Some(false) => {
+                    println!("replay: the recorded violation does not occur on the current tree");
+                    std::process::exit(0);
+                }
+                None => {
+                    eprintln!("MACHINERY no thread configuration with that label");
+                    std::process::exit(2);
+                }
+            }
+        }
     }
     if let Some(p) = cli.replay {
         let v = trv_core::load_replay(&p);
@@ -434,6 +456,9 @@ fn main() {
         rep.extra.insert("abstraction_validation".into(), json!({"depth": 5, "mismatches": mism}));
     }
     timeout_grid(&mut rep);
+    // thread level: concurrent round-robin selections (engine B)
+    threads::run(tier, &mut rep);
+    rep.assumptions.push("thread level (engine B): scheduling points are the atomic steps of the selector's round-robin cursor (repo feature verif-hooks); sequentially consistent memory; all resources published healthy, the checker task stopped".into());
     rep.require_witness("slow_check_within_its_timeout_counted");
     rep.require_witness("check_slower_than_its_timeout_failed");
     // quick: 3 resources, every status vector and every vector one check later (64 x 64);
